@@ -165,7 +165,7 @@ package netpoll
 
 // ---- dialing (net_dialer.go, net_sock.go, net_netfd.go, net_polldesc.go): C14 ----
 // the deadline error is created once at package initialisation and never reassigned
-//@ owned C14 : global:errIOTimeout global:errCanceled by init
+//@ owned C14 : global:errIOTimeout global:errCanceled global:errMissingAddress by init
 //@ func mapErr
 //@   property C14
 //@   assume typeis(errIOTimeout, *timeoutError) && errCanceled != nil && context.Canceled != context.DeadlineExceeded
@@ -178,11 +178,40 @@ package netpoll
 //@   trusted body not verified (resolver calls, composite literals of struct arrays); its result pair comes from DialTCP or is (nil, error)
 //@   ensures (err == nil) == (connection != nil)
 //@   modifies world
-//@ func DialUnix
-//@   trusted body not verified; result pair is (connection, nil) or (nil, error)
-//@   results connection err
+//@ func unixSocket
+//@   property C14
+//@   requires ctx != nil
+//@   requires mbase(pollmanager) && (pollmanager.status == 2 ==> mgood(pollmanager))
+//@   assume pollmanager.status != 1 && errMissingAddress != nil
+//@   ensures (err == nil) == (conn != nil)
+//@   ensures err == nil ==> fdopen[conn.fd] && conn.closed == 0
+//@   modifies world, fdopen, closecnt, FDOperator.owned, operatorCache.ocl, operatorCache.ofl, runFailed, wwDetached, ocBase, netFD.dialing, sockFd, sockClosed, sockOpen, nonblock
+//@ func newUnixConnection
+//@   property C14
+//@   requires conn != nil && (typeis(conn, *netFD) ==> conn#val != 0)
+//@   assume cblist() && mbase(pollmanager) && (pollmanager.status == 2 ==> mgood(pollmanager)) && pollmanager.status != 1
 //@   ensures (err == nil) == (connection != nil)
-//@   modifies world
+//@   modifies world, key:netpoll.connection.setup, key:netpoll.connection.operator, locker.heldP, locker.heldC, locker.sealed_heldP, FDOperator.owned, operatorCache.ocl, runFailed, ocBase, prepDone, prepRegistered, prepOK, cbRuns
+//@   ghost before call (*connection).init#1: assert !wasalloc(arg0); arg0.setup = true
+//@ func (*sysDialer).dialUnix
+//@   property C14
+//@   requires ctx != nil
+//@   results uc err
+//@   assume cblist() && mbase(pollmanager) && (pollmanager.status == 2 ==> mgood(pollmanager)) && pollmanager.status != 1
+//@   ensures (err == nil) == (uc != nil)
+//@   modifies world, fdopen, closecnt, FDOperator.owned, operatorCache.ocl, operatorCache.ofl, runFailed, wwDetached, ocBase, netFD.dialing, sockFd, sockClosed, sockOpen, nonblock, key:netpoll.connection.setup, key:netpoll.connection.operator, locker.heldP, locker.heldC, locker.sealed_heldP, prepDone, prepRegistered, prepOK, cbRuns
+//@ func DialUnix
+//@   property C14
+//@   results connection err
+//@   assume cblist() && mbase(pollmanager) && (pollmanager.status == 2 ==> mgood(pollmanager)) && pollmanager.status != 1
+//@   ensures (err == nil) == (connection != nil)
+//@   modifies world, fdopen, closecnt, FDOperator.owned, operatorCache.ocl, operatorCache.ofl, runFailed, wwDetached, ocBase, netFD.dialing, sockFd, sockClosed, sockOpen, nonblock, key:netpoll.connection.setup, key:netpoll.connection.operator, locker.heldP, locker.heldC, locker.sealed_heldP, prepDone, prepRegistered, prepOK, cbRuns
+//@ func DialTCP
+//@   property C14
+//@   results connection err
+//@   assume cblist() && mbase(pollmanager) && (pollmanager.status == 2 ==> mgood(pollmanager)) && pollmanager.status != 1 && errMissingAddress != nil
+//@   ensures (err == nil) == (connection != nil)
+//@   modifies world, fdopen, closecnt, FDOperator.owned, operatorCache.ocl, operatorCache.ofl, runFailed, wwDetached, ocBase, netFD.dialing, sockFd, sockClosed, sockOpen, nonblock, key:netpoll.connection.setup, key:netpoll.connection.operator, locker.heldP, locker.heldC, locker.sealed_heldP, prepDone, prepRegistered, prepOK, cbRuns, dlOpened, dlClosed, dlKept, netFD.closed
 //@ func (*dialer).DialConnection
 //@   property C14
 //@   ensures (err == nil) == (connection != nil)
@@ -338,3 +367,25 @@ package netpoll
 //@   modifies world, evl.svr, shQuit, shDetached, shLnClosed, shSwept, key:cell:int
 //@   ghost before call (*eventLoop).quit#1: shQuit = true
 //@   ghost before call (*server).Close#1: assert shQuit
+
+// NewFDConnection adopts a descriptor: exactly one of connection / error
+//@ func NewFDConnection
+//@   property C14 C15
+//@   results conn err
+//@   assume cblist() && mbase(pollmanager) && (pollmanager.status == 2 ==> mgood(pollmanager)) && pollmanager.status != 1
+//@   ensures (err == nil) == (conn != nil)
+//@   modifies world, key:netpoll.connection.setup, key:netpoll.connection.operator, locker.heldP, locker.heldC, locker.sealed_heldP, FDOperator.owned, operatorCache.ocl, runFailed, ocBase, prepDone, prepRegistered, prepOK, cbRuns
+//@   ghost before call (*connection).init#1: assert !wasalloc(arg0); arg0.setup = true
+
+// server.Run: binds the listener's slot to a poller and registers it; a failed registration is reported through onQuit
+//@ ghost global srvQuit bool
+//@ func (*server).Run
+//@   property C13
+//@   requires s != nil && s.ln != nil && s.onQuit != nil
+//@   assume mbase(pollmanager) && (pollmanager.status == 2 ==> mgood(pollmanager)) && pollmanager.status != 1
+//@   threadlocal !srvQuit
+//@   ensures err != nil ==> srvQuit
+//@   ensures err == nil ==> s.operator.poll != nil
+//@   modifies world, s.operator.FD, s.operator.OnRead, s.operator.OnHup, s.operator.poll, FDOperator.state, FDOperator.detached, srvQuit, runFailed, s.operator.OnWrite, s.operator.Inputs, s.operator.InputAck, s.operator.Outputs, s.operator.OutputAck, s.operator.next, s.operator.index
+//@   ghost after call (*manager).Pick#1: assume result != nil
+//@   ghost before call dyn.onQuit#1: srvQuit = true
